@@ -136,6 +136,52 @@ func FactsAt(b *ssa.BasicBlock) []Fact {
 	return out
 }
 
+// ExpandFact lists what follows from "v is t" (negations and comparisons with boolean constants unfolded).
+func ExpandFact(v ssa.Value, t bool) []Fact { return appendFact(nil, v, t) }
+
+// TrueImplies: the facts (over fn's own values) that hold whenever the boolean function fn returns true,
+// for the shape `return a && b && ...` (one return whose value is a phi of false constants and one
+// computed edge, or a plain value).  ok=false for any other shape.
+func TrueImplies(fn *ssa.Function) ([]Fact, bool) {
+	if fn == nil || fn.Blocks == nil || fn.Signature.Results().Len() != 1 {
+		return nil, false
+	}
+	var ret *ssa.Return
+	n := 0
+	Instrs(fn, func(in ssa.Instruction) {
+		if r, ok := in.(*ssa.Return); ok {
+			ret = r
+			n++
+		}
+	})
+	if n != 1 {
+		return nil, false
+	}
+	switch x := ret.Results[0].(type) {
+	case *ssa.Phi:
+		var facts []Fact
+		live := 0
+		for i, e := range x.Edges {
+			if k, ok := e.(*ssa.Const); ok && k.Value != nil && k.Value.Kind() == constant.Bool && !constant.BoolVal(k.Value) {
+				continue
+			}
+			live++
+			facts = append(FactsAt(x.Block().Preds[i]), appendFact(nil, e, true)...)
+			// the edge itself may be conditional on the predecessor's branch
+			p := x.Block().Preds[i]
+			if iff, ok := p.Instrs[len(p.Instrs)-1].(*ssa.If); ok && p.Succs[0] != p.Succs[1] {
+				facts = appendFact(facts, iff.Cond, p.Succs[0] == x.Block())
+			}
+		}
+		if live != 1 {
+			return nil, false
+		}
+		return facts, true
+	default:
+		return append(FactsAt(ret.Block()), appendFact(nil, ret.Results[0], true)...), true
+	}
+}
+
 func appendFact(out []Fact, v ssa.Value, t bool) []Fact {
 	out = append(out, Fact{v, t})
 	if u, ok := v.(*ssa.UnOp); ok && u.Op == token.NOT {
